@@ -43,6 +43,13 @@ def gen(rng):
     if dir_last:
         vol.dir_sectors = [38]
         alloc.free.remove(38)
+    if rng.random() < 0.4:
+        # file-table order differs from the order on the disk (what deleting and re-saving leaves behind): the file listed
+        # FIRST lies in the highest sectors, so a cut can remove an earlier-listed file and leave later-listed ones intact
+        if not dir_last:
+            vol.dir_sectors = [alloc.free.pop(0)]
+        for f in reversed(files):
+            f.sectors = alloc.take(max(1, -(-len(f.body()) // SECTOR)))
     img = AW.image_bytes([part], [alloc])
     return img, vol, part
 
